@@ -173,6 +173,9 @@ static size_t canon(void *p, char *b, size_t cap)
     return canon_sub(o, z->rbtree.root, b, off, cap, 0);
 }
 
+static FILE *saved_json;
+static void on_fault(void) { if (!sx_json) sx_json = saved_json; }     /* so that sx_finish() closes the result file */
+
 static void run_scenario(int nu, int max_depth)
 {
     NU = nu;
@@ -180,7 +183,7 @@ static void run_scenario(int nu, int max_depth)
     g_scen = nm;
     memset(obs, 0, sizeof(obs)); obs_nonbest = obs_maxtree = obs_maxlist = obs_maxlive = 0;
     sx_system_t sys = { nm, 2 * nu, fresh, destroy, enabled, apply, canon, opname, max_depth, 0 };
-    sx_stats_t st; FILE *save = sx_json; sx_json = NULL;
+    sx_stats_t st; FILE *save = sx_json; saved_json = save; g_on_fault = on_fault; sx_json = NULL;
     sx_bfs(&sys, &st);
     sx_json = save;
     char extra[700];
